@@ -93,11 +93,13 @@ fn add_range(range: Test, start_index: usize, disjoint_ranges: &mut Vec<Test>) {
             assert!(low_range.is_disjoint(&max_range));
             assert!(mid_range.is_disjoint(&max_range));
 
-            // Replace the existing range with the low range, and then
-            // add the mid and max ranges in. (The low range may be
-            // empty, but we'll prune that out later.)
-            disjoint_ranges[index] = low_range;
-            add_range(mid_range, index + 1, disjoint_ranges);
+            // Replace the existing range with the mid range, which is
+            // part of it and so overlaps no other entry, and then add
+            // the low and max ranges in: each of them may be a part of
+            // `range` that overlaps later entries. (They may also be
+            // empty, in which case nothing is added.)
+            disjoint_ranges[index] = mid_range;
+            add_range(low_range, index + 1, disjoint_ranges);
             add_range(max_range, index + 1, disjoint_ranges);
         }
 
